@@ -194,6 +194,15 @@ def replay_scores(cex):
         al = m.align(a, (0, 0, 0))
         if abs(s - ref) > 1e-4 or abs(float(lds[1, 1, 1]) - s) > 1e-4 or abs(float(al.score) - s) > 1e-4:
             bad[f"model-score-landscape-align{shape}"] = [s, ref, float(lds[1, 1, 1]), float(al.score)]
+        # masks: binary, soft reaching zero, soft WITHOUT any zero voxel -- the score is the Pearson correlation of the two masked images
+        for mname, mk in (("binary", (rng.uniform(size=shape) > 0.4).astype(np.float32)), ("soft", np.clip(rng.uniform(-0.2, 1.0, size=shape), 0, 1).astype(np.float32)),
+                          ("soft-no-zero", rng.uniform(0.05, 1.0, size=shape).astype(np.float32))):
+            mm = ZNCCAlignment(b, mk)
+            sm = float(mm.score(a, np.array([0, 0, 0, 1.0]), np.zeros(3)))
+            refm = float(np.corrcoef((a * mk).ravel(), (b * mk).ravel())[0, 1])
+            alm = mm.align(a, (0, 0, 0))
+            if abs(sm - refm) > 1e-4 or abs(float(alm.score) - sm) > 1e-4:
+                bad[f"masked-score[{mname}]{shape}"] = [sm, refm, float(alm.score)]
     return len(bad) > 0, {"problems": {k: v for k, v in list(bad.items())[:5]}}
 
 
